@@ -17,7 +17,7 @@ ASSUMPTIONS = ['text-only definitions have no deepest element: no >b pair for th
                'whether a definition has a single top-level node is decided on its text (operators outside brackets, braces and quotes)',
                'user tables reference only their own names, so the nesting bound is the number of user snippets',
                'termination decided on logical steps (20M line events)']
-FLOORS = {'quick': {'builtin-pair': 6000, 'multi-top-pair': 150, 'user-table': 4000}, 'thorough': {'builtin-pair': 6000, 'multi-top-pair': 150, 'user-table': 180000}}
+FLOORS = {'quick': {'builtin-pair': 6000, 'multi-top-pair': 150, 'user-table': 4000, 'user-chain-pair': 1500}, 'thorough': {'builtin-pair': 6000, 'multi-top-pair': 150, 'user-table': 180000, 'user-chain-pair': 100000}}
 REQUIRED_MONITORS = ['oracle:alias-equals-definition', 'oracle:multi-top', 'termination:bounded', 'probe:resolve-depth']
 SYNTAXES = ['html', 'xsl', 'pug', 'jsx', 'xml', 'haml', 'slim']
 NTABLES = {'quick': 700, 'thorough': 12000}
@@ -31,6 +31,7 @@ def describe(tier):
 def shards(tier, seed):
     out = [{'kind': 'builtin', 'syntax': s} for s in SYNTAXES]
     out.append({'kind': 'multi'})
+    out += [{'kind': 'chain', 'n': 150 if tier == 'quick' else 4000} for _ in range(2 if tier == 'quick' else 8)]
     n = 6 if tier == 'quick' else 15
     out += [{'kind': 'user', 'n': NTABLES[tier]} for _ in range(n)]
     return out
@@ -216,6 +217,21 @@ def run_shard(desc, ctx):
                     if label in ('attrs', 'child') and syntax == 'html':
                         mon.pair(label + ':noformat', a, d, {'syntax': syntax, 'options': {'output.format': False, 'output.reverseAttributes': False}},
                                  'builtin-pair', 'oracle:alias-equals-definition')
+        elif desc['kind'] == 'chain':
+            rng = ctx.rng
+            for _ in range(desc['n']):
+                depth = rng.randint(2, 9)
+                tbl = {}
+                for d in range(depth):
+                    nxt = 'w%d' % (d + 1) if d < depth - 1 else rng.choice(['x-end', 'x-end[z]', 'x-end>x-in'])
+                    deco = rng.choice(['', '.c%d' % d, '[a%d=%d]' % (d, d), '{t%d}' % d, '.k[m=%d]' % d])
+                    shape = rng.choice(['%s%s', 'x-o%d>%%s%%s' % d, '%s%s+x-s', '(%s%s)'])
+                    tbl['w%d' % d] = shape % (nxt, deco)
+                for d in rng.sample(range(depth), min(3, depth)):
+                    key = 'w%d' % d
+                    for label, a, dd in pairs_for(key, tbl[key]):
+                        if label in ('plain', 'inside', 'attrs', 'child', 'repeat'):
+                            mon.pair('chain:' + label, a, dd, {'syntax': rng.choice(['html', 'pug']), 'snippets': tbl}, 'user-chain-pair', 'oracle:alias-equals-definition')
         elif desc['kind'] == 'multi':
             for syntax in SYNTAXES:
                 for a, d in MULTI_PAIRS:
